@@ -186,12 +186,24 @@ impl GraphEngine {
     }
 
     pub fn begin_read(&self) -> Snapshot {
+        #[cfg(luqing_studio_nervusdb_verif)]
+        nervusdb_api::verif_hooks::sched("read.before_runs");
         let runs = self.published_runs.read().unwrap().clone();
+        #[cfg(luqing_studio_nervusdb_verif)]
+        nervusdb_api::verif_hooks::sched("read.after_runs");
         let segments = self.published_segments.read().unwrap().clone();
+        #[cfg(luqing_studio_nervusdb_verif)]
+        nervusdb_api::verif_hooks::sched("read.after_segments");
         let labels = self.published_labels.read().unwrap().clone();
+        #[cfg(luqing_studio_nervusdb_verif)]
+        nervusdb_api::verif_hooks::sched("read.after_labels");
         let node_labels = self.published_node_labels.read().unwrap().clone();
+        #[cfg(luqing_studio_nervusdb_verif)]
+        nervusdb_api::verif_hooks::sched("read.after_node_labels");
         let (properties_root, stats_root) =
             load_properties_and_stats_roots(&self.properties_root, &self.stats_root);
+        #[cfg(luqing_studio_nervusdb_verif)]
+        nervusdb_api::verif_hooks::sched("read.after_roots");
         build_snapshot_from_published(
             runs,
             segments,
@@ -339,6 +351,8 @@ impl GraphEngine {
             seg.persist(&mut pager)?;
             pager.sync()?;
         }
+        #[cfg(luqing_studio_nervusdb_verif)]
+        nervusdb_api::verif_hooks::sched("compact.after_segment_persist");
 
         let up_to_txid = runs.iter().map(|r| r.txid()).max().unwrap_or(0);
         let epoch = self.manifest_epoch.load(Ordering::Relaxed) + 1;
@@ -411,6 +425,8 @@ impl GraphEngine {
             current_root = tree.root().as_u64();
         }
 
+        #[cfg(luqing_studio_nervusdb_verif)]
+        nervusdb_api::verif_hooks::sched("compact.after_property_sink");
         // Statistics Collection - read directly from IdMap for accuracy
         let mut stats = crate::stats::GraphStatistics::default();
         {
@@ -469,18 +485,26 @@ impl GraphEngine {
             wal.fsync()?;
         }
 
+        #[cfg(luqing_studio_nervusdb_verif)]
+        nervusdb_api::verif_hooks::sched("compact.after_wal_manifest");
         // 4. Update memory state
         self.checkpoint_txid.store(up_to_txid, Ordering::SeqCst);
         self.properties_root.store(current_root, Ordering::SeqCst);
         self.stats_root.store(stats_root, Ordering::SeqCst);
+        #[cfg(luqing_studio_nervusdb_verif)]
+        nervusdb_api::verif_hooks::sched("compact.after_roots_published");
         {
             let mut cur_runs = self.published_runs.write().unwrap();
             *cur_runs = Arc::new(Vec::new());
         }
+        #[cfg(luqing_studio_nervusdb_verif)]
+        nervusdb_api::verif_hooks::sched("compact.after_runs_cleared");
         {
             let mut cur_segs = self.published_segments.write().unwrap();
             *cur_segs = new_segments;
         }
+        #[cfg(luqing_studio_nervusdb_verif)]
+        nervusdb_api::verif_hooks::sched("compact.after_segments_installed");
 
         self.manifest_epoch.store(epoch, Ordering::Relaxed);
         if !has_properties {
@@ -1064,6 +1088,8 @@ impl<'a> WriteTxn<'a> {
             wal.fsync()?;
         }
 
+        #[cfg(luqing_studio_nervusdb_verif)]
+        nervusdb_api::verif_hooks::sched("commit.after_wal_commit");
         let has_new_nodes = !self.created_nodes.is_empty();
         let has_label_additions = !self.pending_label_additions.is_empty();
         let has_label_removals = !self.pending_label_removals.is_empty();
@@ -1083,14 +1109,20 @@ impl<'a> WriteTxn<'a> {
             }
         }
 
+        #[cfg(luqing_studio_nervusdb_verif)]
+        nervusdb_api::verif_hooks::sched("commit.after_node_table");
         let has_label_mutations = has_new_nodes || has_label_additions || has_label_removals;
         if has_label_mutations {
             self.engine.update_published_node_labels();
         }
+        #[cfg(luqing_studio_nervusdb_verif)]
+        nervusdb_api::verif_hooks::sched("commit.after_label_publish");
 
         if !run.is_empty() {
             self.engine.publish_run(Arc::new(run));
         }
+        #[cfg(luqing_studio_nervusdb_verif)]
+        nervusdb_api::verif_hooks::sched("commit.after_run_publish");
 
         self.engine.next_txid.fetch_add(1, Ordering::Relaxed);
 
